@@ -26,6 +26,19 @@ CHECKS = {
  "C11": ("model_checking", "GetResult operator (position / first exact name / typed getter) with invariants LookupConsistent and NamesTrimmed in TLC; every (state, look-up) pair replayed and result + exception class compared",
          "Every positional and by-name look-up and typed value getter is an action of the specification; TLC checks that by-name and positional look-ups agree and that stored names are trimmed in every reachable state, and every (state, query) pair incl. indices size, size+1, 2^32, 2^64-1 and absent / case-variant / space-padded names is executed on the real object.",
          "container sizes 0..2; 2^32 and 2^64-1 as tokens; names given with trailing spaces through declaration, setter and naming constructor", "6/C11"),
+
+ "C01": ("model_checking", "TLA+ file-format model (WriterModel/ReaderModel in C3DFormat.tla): TLC checks RoundTrip (Content(ReaderModel(WriterModel(obj))) = Content(obj)) in every state of MC_IO; every transition incl. save+load replayed on real files (bytes and reloaded state compared)",
+         "TLC evaluates the writer and reader models in every reachable state of the bounded instance and checks that the content (parameters with type/dims/values/description/lock, groups, every point's 4 x 4 bytes, every analog sample, header counts) survives; the real writer's bytes must equal the writer model's bytes and the real reloaded object must equal the reader model's object, so the real round trip is the model's round trip.",
+         "bounded instance (1-2 points, 1 channel, 2 sub-frames, up to 1 (quick) / 2 (thorough) frames, int/float/string/multi-dimensional/empty parameters, lower-case names, descriptions, locks); known finding: gap frames", "6/C01"),
+ "C03": ("model_checking", "TLC invariant SelfConsistent(WriterModel(obj)) (pointer-following chain decoder in TLA+) in every state of MC_IO + byte equality between the writer model and the real saved file on every save",
+         "SelfConsistent follows only the file's own pointers (header word 1, header word 9, POINT:DATA_START, block count, next-offsets, terminator, padding, counts, data size, float marker); TLC proves it for the writer model in every reachable state, and every real save of the replay must be byte-identical to the writer model's output.",
+         "bounded instance as C01; alignment residues are those reached by the parameter alphabet (a dedicated residue sweep is in the thorough tier); known findings: scale word, gap frames", "6/C03"),
+ "C04": ("model_checking", "TLC invariant SaveIdempotent (load-save-load content preserved, generation 2 bytes = generation 3 bytes) on MC_IO + replay of second-generation save/load on real files",
+         "From every reachable object TLC saves, loads, saves and loads again in the model and requires equal content and byte-identical generations; the replay performs the same generations with the real library (states and bytes compared with the model).",
+         "files are those ezc3d writes for the bounded instance; foreign layouts (sparse ids, padded strings, byte type) are covered by the layout-variant slice", "6/C04"),
+ "C14": ("model_checking", "Save is UNCHANGED obj and a function of obj in the specification; replay compares the real object's full state before/after every save and the bytes of two consecutive saves; memcheck/MALLOC_PERTURB legs for definedness",
+         "Every save of the replay is checked for purity (projected state identical before and after), repeatability (second save byte-identical) and equality with the writer model, which is a function of the abstract state only - a byte that depends on anything else (uninitialised or unrelated memory) cannot match the model in two differently perturbed runs.",
+         "definedness relies on byte equality with the model under two MALLOC_PERTURB_ fill values (thorough) and on memcheck as sensor", "6/C14"),
 }
 NA = {
 }
